@@ -9,9 +9,9 @@ from prog_entry import EntryProgram, ENTRY_POINTS, STRATEGY, tail_ops, oracle_en
 RUNTIMES = (('tokio_runtime', 'TokioSpawner', None), ('async_runtime', 'AsyncStdSpawner', 'async_runtime'), ('smol_runtime', 'SmolSpawner', 'smol_runtime'))
 
 
-FAMILY = ('timers_stop', 'timers_mixed_drop', 'timers_restart', 'own_join_twice', 'own_detach', 'own_consume', 'own_join_after_last_drop', 'own_join_after_panic',
+FAMILY = ('timers_stop', 'timers_mixed_drop', 'timers_restart', 'own_join_twice', 'own_detach', 'own_consume', 'own_join_after_last_drop', 'own_join_after_panic', 'own_two_join_futures', 'own_parked_join_future',
           'registry_sequential', 'registry_register', 'children_broadcast_stop')
-FAMILY_THOROUGH = ('timers_interval_with_bounded', 'timers_fail_restart', 'own_two_join_futures', 'own_parked_join_future',
+FAMILY_THOROUGH = ('timers_interval_with_bounded', 'timers_fail_restart',
                    'registry_replace', 'registry_concurrent_lookup', 'children_kept_outside', 'children_two_under_m')
 
 
